@@ -85,7 +85,7 @@ class Cell(Sym):
 
     def write(self, ctx, value):
         arr, i = self.arr, self.i
-        old = arr._sel if arr.base is None else arr.sel
+        old = snapshot(arr)
         e = unwrap(arr.kind, value)
         arr._write(lambda j: _pick(arr.kind, j == i, e, old(j)))
 
